@@ -39,7 +39,7 @@ def gen_tokens(rng, rows, cols, n, uni):
             al = u'abcXYZ 09~' + (u'\xe9€' if uni else u'')
             toks.append(u''.join(rng.choice(al) for _ in range(k)))
         elif r < 0.42:
-            toks.append(rng.choice([u'\r', u'\n', u'\r\n', u'\x08', u'\t', u'\x07', u'\x00']))
+            toks.append(rng.choice([u'\r', u'\n', u'\r\n', u'\x08', u'\t', u'\x07', u'\x00', u'\x18', u'\x1a', u'\x7f']))
         elif r < 0.9:
             kind = rng.choice(['A', 'B', 'C', 'D', 'H', 'f', 'J', 'K', 'r', 'r0', 'm', 'mode', 'l', 'esc', 'q', 'H0', 'J0'])
             if kind in 'ABCD':
@@ -70,6 +70,11 @@ def gen_tokens(rng, rows, cols, n, uni):
             else:
                 toks.append(rng.choice([u'\x1b7', u'\x1b8', u'\x1bM', u'\x1b>', u'\x1b<', u'\x1b=', u'\x1b(A', u'\x1b)0',
                                         u'\x1b#8', u'\x1b(B']))
+        elif rng.random() < 0.5:
+            # a control sequence cut short by an unusual final byte (CAN and SUB abort sequences on a VT100)
+            pre = rng.choice([u'', u'5', u'5;', u'1;2', u'1;2;', u'7;8;9', u'?', u'?25', u'0', u'99999;'])
+            fin = rng.choice([u'\x18', u'\x1a', u'\x00', u'\x7f', u'\n', u'\r', u'Z', u'~', u'!', u' ', u'\x1b', u'\x08', u'@'])
+            toks.append(u'\x1b[' + pre + fin)
         else:
             toks.append(rng.choice([u'\x1bz', u'\x1b[5n', u'\x1b[;', u'\x1b[1;z', u'\x1b[1;2z', u'\x1b[1;2;z', u'\x1b[1;2;3z',
                                     u'\x1b[?z', u'\x1b[?1z', u'\x1b\x1b', u'\x1b[\x1b', u'\x1b(z', u'\x1b[1\r']))
@@ -107,6 +112,8 @@ def generate(rng):
 
 UNKNOWN_FORMS = [u'\x1bz', u'\x1b[5n', u'\x1b[;', u'\x1b[1;z', u'\x1b[1;2z', u'\x1b[1;2;z', u'\x1b[1;2;3z',
                  u'\x1b[?z', u'\x1b[?1z', u'\x1b\x1b', u'\x1b[\x1b', u'\x1b(z', u'\x1b[1\r']
+# any CSI prefix followed by ONE arbitrary final character completes (known handler or default transition to ground state)
+_CSI_ANY = re.compile(u'^\x1b\\[\\??(?:\\d+(?:;\\d+)*)?;?[^0-9;]$', re.DOTALL)
 _FORMS = re.compile(u'^\x1b(?:\\[\\d*[ABCDJKHmqr]|\\[\\d+;\\d+[Hfrmq]|\\[\\d+(?:;\\d+)+[mq]|\\[\\?\\d+[hl]|\\[\\d+l|[78M><=]|[()][AB012]|#8)$')
 
 
@@ -114,7 +121,7 @@ def valid_token(tk):
     """Tokens are complete units by construction; a shrunk scenario must keep them so."""
     if u'\x1b' not in tk:
         return True
-    return tk in UNKNOWN_FORMS or bool(_FORMS.match(tk))
+    return tk in UNKNOWN_FORMS or bool(_FORMS.match(tk)) or bool(_CSI_ANY.match(tk))
 
 
 def snapshot(t):
